@@ -34,13 +34,15 @@ OPEN_STATEMENTS = [
     'bct_parity_matrix, bct_interleaved_matrix, bct_checksum_matrix (parity sector); bct_jw_eq_jw: same matrix elements as the '
     'C04 Model of jordan_wigner; bk_encoder_rows, bk_code_encoding_is_spec, bct_bk_eq_bk: same matrix elements between '
     'encoded states as the C05 Model of bravyi_kitaev); the structural hypotheses hold for every constructor and are closed under c + d and k * c '
-    '(constructors_struct, struct_closed), with soundness on product domains (bct_append_sound, bct_int_mul_sound); not proved: '
-    'the structural hypotheses for concatenation c * d (double_decoding), the regime where __isub__ / += / compress() drop a non-zero coefficient below '
+    'and concatenation c * d (constructors_struct, struct_closed, struct_closed_concat), with soundness for derived codes '
+    '(bct_append_sound, bct_int_mul_sound, bct_concat_sound); not proved: the regime where __isub__ / += / compress() drop a non-zero coefficient below '
     '1e-8, and equality of the term dictionaries (not only of the operators) with jordan_wigner / bravyi_kitaev (covered by the transform '
     'stream: Model correspondence + Spec oracle on every encoded domain state + term-for-term comparison with jordan_wigner / '
     'bravyi_kitaev)',
-    'Shaped for the built-in constructors other than through init_shaped: covered by the codes stream only (both constructors '
-    'of BinaryPolynomial are proved: string_constructor_sound, tuple_constructor_sound)',
+    'Shaped and the decoder structure are proved for every constructor and every code expression the driver builds '
+    '(constructors_shaped, code_expression_shaped_struct); ValidOn for a whole code expression follows by composing '
+    'concat_valid / append_valid / int_mul_valid with the per-constructor validity theorems (not stated as one induction over '
+    'expressions because the domain is expression dependent; the codes stream checks it on the computed domains)',
 ]
 TRUSTED = [
     'C09: string tokenisation of BinaryPolynomial(str) (str.split / isdigit / int) is done by the harness '
